@@ -6,14 +6,11 @@
     eq    : cmp a b = eq ↔ a = b          (for the antisymmetric ones)
 -/
 import Nervus.Model.Value
+import Nervus.Spec.Order
 import Nervus.Proofs.BytesOrder
 namespace Nervus
 open Value F64
 
-/-- the laws of a total preorder given as a three-way comparison -/
-structure CmpLaws {α : Type} (cmp : α → α → Ordering) : Prop where
-  swap : ∀ a b, cmp a b = (cmp b a).swap
-  trans : ∀ a b c, cmp a b ≠ .gt → cmp b c ≠ .gt → cmp a c = (cmp a b).then (cmp b c)
 
 namespace CmpLaws
 variable {α : Type} {cmp : α → α → Ordering}
